@@ -622,7 +622,7 @@ func (c *c47ctx) concurrent(round int) {
 func c47() {
 	r := vk.Start("C47", "exploration")
 	c := &c47ctx{r: r, col: newCollector(), seen: map[string]struct{}{}, sampled: map[string]bool{}}
-	n := r.Pick(12000, 400000)
+	n := r.Pick(12000, 250000)
 	helpers := []struct {
 		name string
 		f    func(int, *rand.Rand)
@@ -642,7 +642,7 @@ func c47() {
 	}
 	wg.Wait()
 	c.col.flush(r)
-	rounds := r.Pick(30, 300)
+	rounds := r.Pick(30, 200)
 	for round := 0; round < rounds; round++ {
 		r.Guard(map[string]any{"concurrent_round": round}, func() { c.concurrent(round) })
 	}
